@@ -309,8 +309,11 @@ func VerifC11_History() {
 			verifAssert(intact, "no-fault-data-complete")
 		}
 	}
+	// CleanUp may only leave the directory behind if its own removal failed: when the single
+	// fault of this path was spent earlier, the directory must be gone whatever CleanUp returns
+	faultSpent := faults && verifFSFaulted()
 	cerr := m.CleanUp()
-	if cerr == nil {
+	if cerr == nil || faultSpent {
 		verifAssert(!verifFSDirExists(dir), "cleanup-removes-the-temporary-directory")
 	}
 	verifObserve("c11", chunk, cycles, sawError, intact)
